@@ -65,6 +65,12 @@ def answer (toks : List String) : String :=
       let x : Nat → Nat → Rat := fun i k => d (i * T + k)
       showRats ((rng N).flatMap fun i => (rng N).flatMap fun j =>
         (rng (tm + 1)).map fun lag => xcorrSq x T tm i j lag)
+  | ["simsq", kind, t, n, flat] =>
+      let T := t.toNat!; let N := n.toNat!
+      let d := ratFn (rats flat)
+      let x : Nat → Nat → Rat := fun i k => d (i * T + k)
+      showRats ((rng N).flatMap fun i => (rng N).map fun j =>
+        if kind == "spearman" then spearmanSq T (x i) (x j) else pearsonSq T (x i) (x j))
   | ["maxscan", vals] =>
       let l := rats vals
       let st := maxScan (ratFn l) l.length
